@@ -469,6 +469,24 @@ fn nest_programs(depth: usize) -> Vec<(String, String)> {
             }
         }
     }
+    // names the assembler generates or uses itself, taken by the user; functions inside their own arguments
+    for (k, t) in [
+        ("generated-name:segments-start", "segments: { default: { start: nop } }"),
+        ("generated-name:segments-end", "segments: { default: { end: nop } }\nlda segments.default.end"),
+        ("generated-name:segments-label", "segments: nop\nlda segments.default.start"),
+        ("generated-name:segments-const", ".const segments = 1\nnop"),
+        ("generated-name:dummy-segment", ".define segment {\nname = \"$dummy\"\nstart = $1000\n}\n.if 0 { nop }\nnop\n.if 0 { .if 0 { nop } }\nnop"),
+        ("generated-name:brace-dummy-segment", ".define segment {\nname = \"dummy\"\nstart = $1000\n}\n.if 0 { nop }\nnop"),
+        ("generated-name:scope", "$scope_1: nop\n{ nop }"),
+        ("generated-name:index", ".const index = 5\n.loop 2 { lda #index }"),
+        ("generated-name:minus", ".loop 2 { - : nop }"),
+        ("function-nesting:defined-defined", ".byte defined(defined(x))"),
+        ("function-nesting:if-defined-defined", ".if defined(defined(u)) { nop }\nrts"),
+        ("function-nesting:defined-of-call", ".byte defined(nofn(1))"),
+        ("function-nesting:three", ".byte defined(defined(defined(1)))"),
+    ] {
+        out.push((k.to_string(), t.to_string()));
+    }
     // recursive macros: k self-invocations, unguarded / guarded by a parameter that counts down /
     // guarded by a condition that never turns false; direct and mutual; invoked once or twice
     for k in 1..=3 {
@@ -863,7 +881,15 @@ pub fn run(ctx: &Ctx, replay: Option<&Value>, rest: &[String]) -> i32 {
     ctx.set("nest_programs", json!(nests.len()));
     nests.par_iter().for_each(|(kind, text)| {
         // (the signature keeps the family only: the nest itself is in the replay)
-        let family = if kind.starts_with("nest:") { "nest" } else { "macro-recursion" };
+        let family = if kind.starts_with("nest:") {
+            "nest"
+        } else if kind.starts_with("generated-name:") {
+            "generated-name"
+        } else if kind.starts_with("function-nesting:") {
+            "function-nesting"
+        } else {
+            "macro-recursion"
+        };
         run_isolated(ctx, kind, family, text)
     });
     eprintln!("[c06] nests done: {} evals, {:.1}s", ctx.evals(), ctx.wall());
@@ -884,7 +910,7 @@ pub fn run(ctx: &Ctx, replay: Option<&Value>, rest: &[String]) -> i32 {
     real_binary_cases(ctx);
     ctx.finish(
         "exploration",
-        "(a) every single-character edit of the production-covering corpus and (reduced) of the examples, all token strings up to length 3/4, each pushed through parse -> codegen(build) -> codegen(language-server mode) -> format -> listing(1, 8); (b) 17 directive/operator positions x 31 integer arguments incl. 0, negatives, 2^63-1 and literals of 20/40/100 digits in each radix, all pairs for / and %; names with dots/spaces; (c) all import graphs over 2 and 3 files (each file may import any subset incl. itself and a missing file; 4 files without missing file in thorough), also with every import spelled `./name`, one child process per graph; (d) convergence stress programs and all pairs of 6 segment ranges in one bank (disjoint, adjacent, overlapping, enclosing, equal; both orders), followed by the bank image merge; (f) every nest of depth <= 3 (quick) / 4 (thorough) over 14 block constructs (taken / untaken / undefined conditionals, segment, scopes, loops incl. 0 iterations, invoked and uninvoked macros, test, import with block) x 3 leaves, each level followed by a statement of its own, and macros that invoke themselves or each other 1-3 times (unguarded, counting down, never ending; invoked once, twice or never); (e) invalid UTF-8 / directory / missing / unreadable files through the real binary. Non-termination is decided by recurring pass-state digests and a fuel counter, never by a clock. non-trivial = distinct input that parses without diagnostics (so that code generation, formatting and listing run) or any import-graph / integer / stress case",
+        "(a) every single-character edit of the production-covering corpus and (reduced) of the examples, all token strings up to length 3/4, each pushed through parse -> codegen(build) -> codegen(language-server mode) -> format -> listing(1, 8); (b) 17 directive/operator positions x 31 integer arguments incl. 0, negatives, 2^63-1 and literals of 20/40/100 digits in each radix, all pairs for / and %; names with dots/spaces; (c) all import graphs over 2 and 3 files (each file may import any subset incl. itself and a missing file; 4 files without missing file in thorough), also with every import spelled `./name`, one child process per graph; (d) convergence stress programs and all pairs of 6 segment ranges in one bank (disjoint, adjacent, overlapping, enclosing, equal; both orders), followed by the bank image merge; (f) every nest of depth <= 3 (quick) / 4 (thorough) over 14 block constructs (taken / untaken / undefined conditionals, segment, scopes, loops incl. 0 iterations, invoked and uninvoked macros, test, import with block) x 3 leaves, each level followed by a statement of its own, names the assembler generates taken by the user, functions inside their own arguments, and macros that invoke themselves or each other 1-3 times (unguarded, counting down, never ending; invoked once, twice or never); (e) invalid UTF-8 / directory / missing / unreadable files through the real binary. Non-termination is decided by recurring pass-state digests and a fuel counter, never by a clock. non-trivial = distinct input that parses without diagnostics (so that code generation, formatting and listing run) or any import-graph / integer / stress case",
         true,
         &[
             "not all byte strings: single edits of a corpus, short token strings, finite menus",
